@@ -297,6 +297,9 @@ def run(R):
     # ---------------------------------------------------------- (a') unreadable source chunks
     _unreadable_source_stream(R, rng, quick)
 
+    # ---------------------------------------------------------- (a'') one downscaler object, several datasets
+    _shared_downscaler_stream(R, rng, quick)
+
     # ---------------------------------------------------------- (b) generator outputs, whole pyramid in memory
     for k in range(220 if quick else 3500):
         size, res, target, info = gen_pyramid_input(rng, 2500 if k % 3 else 9000)
@@ -533,6 +536,67 @@ def _unreadable_source_stream(R, rng, quick):
                 R.violation("new scale written without error but wrong (unreadable source chunks present)", case, {})
 
 
+def _shared_downscaler_stream(R, rng, quick):
+    """ONE downscaler object (library use: ds = get_downscaler(m); for each dataset:
+    compute_dyadic_scales(io, ds)) builds the pyramids of several datasets of DIFFERENT data types in one
+    process, in fixed (stratified) orders; the later datasets hold values the earlier types cannot
+    represent.  Every level of every pyramid must equal the whole previous level downscaled once
+    (independent reference); the levels of the earlier pyramids are re-checked after the later ones."""
+    from neuroglancer_scripts import downscaling, dyadic_pyramid as dp
+    orders = {"average": [("uint8", "uint16"), ("uint16", "uint8"), ("uint8", "uint32", "uint16"),
+                          ("uint8", "float32"), ("float32", "uint16"), ("uint32", "uint8", "float32")],
+              "majority": [("uint8", "uint16"), ("uint32", "uint8", "uint64")],
+              "stride": [("uint8", "uint16"), ("uint64", "uint8", "uint32")]}
+    reps = 1 if quick else 12
+    for method, olist in orders.items():
+        for order in olist * reps:
+            ds = downscaling.get_downscaler(method, None, {})          # one object for the whole batch
+            done = []
+            for pos, dtype in enumerate(order):
+                size = [rng.choice([5, 8, 9, 13]), rng.choice([4, 7, 8]), rng.choice([1, 3, 6])]
+                rng.shuffle(size)
+                C = rng.choice([1, 2])
+                info = pc.base_info(size, [1, 1, 1], data_type=dtype, num_channels=C)
+                dp.fill_scales_for_dyadic_pyramid(info, target_chunk_size=rng.choice([2, 4]))
+                n = C * size[0] * size[1] * size[2]
+                if dtype == "float32":
+                    vals = [rng.choice([0.25, 1.5, 2.5, 1e6 + 0.5, -3.25, 300.75]) if rng.random() < 0.5
+                            else rng.uniform(-5, 70000) for _ in range(n)]
+                else:
+                    top = min(DTYPES[dtype], 2 ** 32 - 1) if method == "average" else DTYPES[dtype]
+                    vals = [rng.choice([top, top - 1, top // 2 + 1, 256, 257, 65536, 70000, 0, 1]) % (top + 1)
+                            if rng.random() < 0.6 else rng.randrange(top + 1) for _ in range(n)]
+                vol = np.array(vals, dtype=np.dtype(dtype)).reshape(C, size[2], size[1], size[0])
+                io = pc.MemIO(copy.deepcopy(info))
+                io.fill_level(info["scales"][0]["key"], vol)
+                with pc.poisoned(0xFF):
+                    out = pc.outcome_bc(lambda: dp.compute_dyadic_scales(io, ds))
+                case = {"shared_downscaler": method, "order": list(order), "position": pos, "dtype": dtype,
+                        "size": size, "C": C}
+                R.case(case, nontrivial=pos >= 1)
+                R.count(f"shared-downscaler:{method}:{dtype}:pos{pos}:{out[0] if out[0] == 'ok' else out[-1]}")
+                if out[0] != "ok":
+                    R.violation("isotropic pyramid not processed when the downscaler object was used before", case, out)
+                    continue
+                done.append((case, info, io, vol))
+                # every dataset processed so far (recipe: re-check earlier results after later calls)
+                for case_k, info_k, io_k, vol_k in done:
+                    prev = vol_k
+                    for li in range(1, len(info_k["scales"])):
+                        got, full = io_k.assemble(info_k["scales"][li]["key"])
+                        f3 = [pc.py_axis_f(a, b) for a, b in zip(info_k["scales"][li - 1]["size"],
+                                                                   info_k["scales"][li]["size"])]
+                        want = _indep_whole(prev, f3, method, None)
+                        if not full or want.shape != got.shape or want.tobytes() != np.ascontiguousarray(got).tobytes():
+                            R.violation("a scale differs from the whole previous scale downscaled once when ONE "
+                                        "downscaler object serves several datasets", {**case_k, "level": li,
+                                                                                       "checked_after_position": pos},
+                                        {"voxels_differing": int((want != got).sum()) if want.shape == got.shape else -1,
+                                         "example_expected": want.ravel()[:4].tolist(), "example_stored": got.ravel()[:4].tolist()})
+                            break
+                        prev = got
+
+
 def _whole_level_oracle(R, rng, quick):
     """The property, literally: after the real commands ran, every scale must equal the selected
     downscaling method applied to the ENTIRE previous scale as one array (the package's own downscaler
@@ -675,6 +739,12 @@ def _damage_one_source_chunk(rng, out, how):
 
 def replay(R, payload):
     case = payload.get("case", {})
+    if "shared_downscaler" in case:
+        import logging
+        logging.disable(logging.CRITICAL)
+        _shared_downscaler_stream(R, R.rng, True)      # the whole stratified stream (a few seconds)
+        logging.disable(logging.NOTSET)
+        return bool(R.violations)
     if "os" in case:
         method, dtype, C = case.get("method", "stride"), case.get("dtype", "uint8"), case.get("C", 1)
         os3 = case["os"]
